@@ -149,6 +149,13 @@ type c14ro struct {
 	run  func(s *influxql.SelectStatement)
 }
 
+// c14fieldCallMapper: a field mapper that also types calls.
+type c14fieldCallMapper struct{ influxql.FieldMapper }
+
+func (m c14fieldCallMapper) CallType(name string, args []influxql.DataType) (influxql.DataType, error) {
+	return c13callTyper{m.FieldMapper}.CallType(name, args)
+}
+
 var c14readonly = []c14ro{
 	{"String", func(s *influxql.SelectStatement) { _ = s.String() }},
 	{"Reduce", func(s *influxql.SelectStatement) { _ = s.Reduce(&influxql.NowValuer{Now: c13clock}) }},
@@ -163,7 +170,10 @@ var c14readonly = []c14ro{
 		for _, f := range s.Fields {
 			_ = influxql.Eval(f.Expr, c13point())
 			_ = influxql.EvalType(f.Expr, s.Sources, c13schemas[1])
+			// with a mapper that also types calls (another branch of the type evaluation)
+			_ = influxql.EvalType(f.Expr, s.Sources, c13callTyper{c13schemas[1]})
 		}
+		_, _, _ = influxql.FieldDimensions(influxql.Sources{&influxql.SubQuery{Statement: s}}, c14fieldCallMapper{c13schemas[1]})
 	}},
 	{"names", func(s *influxql.SelectStatement) {
 		_ = s.Fields.Names()
@@ -481,7 +491,7 @@ func c14run(r *ev.Run) {
 		// field lists the name queries treat specially: an explicit time column in every position, repeated names,
 		// tag arguments of top(), a target without a database
 		"SELECT time AS ts, v, host FROM m", "SELECT time, v FROM m", "SELECT v, time, w FROM m", "SELECT v, time FROM m", "SELECT time, time AS t, v, time FROM m",
-		"SELECT v, v, v_1, v AS v_1 FROM m", "SELECT top(v, host, region, 2), host FROM m", "SELECT mean(v) INTO out FROM db0..m, m2", "SELECT v INTO db1.rp.:MEASUREMENT FROM db0..m",
+		"SELECT v, v, v_1, v AS v_1 FROM m", "SELECT count(DISTINCT v), mean(DISTINCT v) + 1, count(distinct(v)) FROM m", "SELECT \"my func\"(v), \"select\"(v, 1) FROM m", "SELECT top(v, host, region, 2), host FROM m", "SELECT mean(v) INTO out FROM db0..m, m2", "SELECT v INTO db1.rp.:MEASUREMENT FROM db0..m",
 	} {
 		if _, err := influxql.ParseStatement(t); err == nil {
 			if _, ok := roots[t]; !ok {
